@@ -82,6 +82,11 @@ def TUP(*items: Sort) -> Sort:
     return Sort("tup", tuple(items))
 
 
+def NTUP(key: str, *items: Sort) -> Sort:
+    """instance of the NamedTuple class `key` with fields of these sorts"""
+    return Sort("ntup", key, tuple(items))
+
+
 def ADTS(family: str) -> Sort:
     return Sort("adt", family)
 
@@ -193,7 +198,7 @@ def contract(key: str, serves: list[str] | None = None, trusted: bool = False, i
             key=key,
             serves=list(serves or []),
             params=dict(cls.__dict__.get("params", {})),
-            result=cls.__dict__.get("result"),
+            result=_fn(cls, "result") if isinstance(cls.__dict__.get("result"), staticmethod) else cls.__dict__.get("result"),
             modifies=list(cls.__dict__.get("modifies", [])),
             requires=_fn(cls, "requires"),
             ensures=_fn(cls, "ensures"),
@@ -260,14 +265,18 @@ def recshape(name: str, **fields: Sort) -> None:
 
 @dataclass
 class LoopSpec:
-    """Invariant for the loop with the given ordinal (source order) in a function.
+    """Specification of the loop with the given ordinal (source order, `for`/`while` statements) in a function.
 
-    invariant(e) -> dict label -> bool; evaluated with e.<local> for locals, e.old for the pre-state,
-    e.i for the ghost iteration index (for-loops over abstract iterables), e.xs for the ghost input sequence.
-    modifies: locals and heap paths changed by the loop body (everything else is framed)."""
-    invariant: Callable[[Any], dict[str, Any]]
-    modifies: list[str]
-    decreases: Callable[[Any], Any] | None = None
+    summary(e, item, j) -> dict label -> bool: what one iteration does, over e.old.<local> (state at the start of the
+      iteration) and e.<local> (after it); used for `for` loops over concrete tuples: each iteration's body is verified
+      against it, then the summary alone carries the state on (one path instead of a product of paths);
+    raises(e_old, item, j) -> dict exception -> condition (exactly when the iteration raises);
+    modifies: locals and heap paths (rooted at locals) the body may change."""
+    summary: Callable[[Any, Any, int], dict[str, Any]] | None = None
+    modifies: list[str] = field(default_factory=list)
+    raises: Callable[[Any, Any, int], dict[Any, Any]] | None = None
+    invariant: Callable[[Any], dict[str, Any]] | None = None
+    appends: dict[str, Any] = field(default_factory=dict)   # list local -> Sort of the one element each iteration appends
 
 
 def inline(key: str) -> None:
